@@ -77,18 +77,18 @@ func main() {
 		return false
 	}
 	var n2 []shapes.N2
-	for _, n := range shapes.Nodes2(c.Thorough()) {
+	for _, n := range shapes.Nodes2(true) {
 		if !skip(n.Name) {
 			n2 = append(n2, n)
 		}
 	}
 	var n3 []shapes.N3
-	for _, n := range shapes.Nodes3(c.Thorough()) {
+	for _, n := range shapes.Nodes3(true) {
 		if !skip(n.Name) {
 			n3 = append(n3, n)
 		}
 	}
-	N2, N3 := vlib.Pick(c, 12, 16), vlib.Pick(c, 6, 9)
+	N2, N3 := vlib.Pick(c, 12, 24), vlib.Pick(c, 5, 10)
 	var mu sync.Mutex
 	var fails []failure
 	var evals, negShapes, built, rejected int64
@@ -228,7 +228,7 @@ func main() {
 		Rule:        "states = shapes built from the expression tree enumeration (leaf menu x combinator menus, depth <= 2, thorough 3) and probed; transitions = Evaluate calls on the probe lattice; non-trivial = shapes with at least one strictly negative probe point",
 		Samples:     []any{n2[0].Name, n2[len(n2)/2].Name, n3[len(n3)/3].Name, n3[len(n3)-1].Name, map[string]any{"nodes_2d": len(n2), "nodes_3d": len(n3), "rejected_by_constructor": rejected}},
 		Exhaustive:  true,
-		Bounds:      map[string]any{"tree_depth": vlib.Pick(c, 2, 3), "lattice_2d": fmt.Sprintf("(2*%d+1)^2 + box planes +-delta", N2), "lattice_3d": fmt.Sprintf("(2*%d+1)^3 + box planes +-delta", N3), "region": "twice the reported box, at least +-1"},
+		Bounds:      map[string]any{"tree_depth": 3, "lattice_2d": fmt.Sprintf("(2*%d+1)^2 + box planes +-delta", N2), "lattice_3d": fmt.Sprintf("(2*%d+1)^3 + box planes +-delta", N3), "region": "twice the reported box, at least +-1"},
 		Extra:       map[string]any{"distinct_root_constructors": roots.Len(), "rejected_by_constructor": rejected},
 		Assumptions: []string{"space is sampled on a lattice and parameters on a menu", "Gyroid3D is excluded (documented as unbounded)", "a violation is attributed to the innermost failing sub-expression"},
 	})
